@@ -46,7 +46,7 @@ class QiskitExporter(QCircuitExporter):
                 qc.id(w[0])  # qiskit names the identity gate "id", not "i"
 
             elif hasattr(qc, g_name):
-                if p:
+                if p is not None:  # a phase of 0 is a parameter too
                     getattr(qc, g_name)(p, *w)
                 else:
                     getattr(qc, g_name)(*w)
